@@ -246,19 +246,22 @@ Section RoundTrip.
     Forall (row_good sem s) (rows_of s vts) /\ Forall (row_renders sem) (rows_of s vts) /\
     map snd vts = map row_line (rows_of s vts) /\
     Forall (fun vt => record_text sem (fst vt) = Ok (snd vt)) vts /\
+    Forall2 (fun r v => cells_of_rec (mcols r) = cells_of_rec (mcols v) /\
+                        rlist (mcols v) = rlist (canon_rec (cells_of_rec (mcols v)))) rs (map fst vts) /\
     match rs with r1 :: _ => record_names r1 = s_names s | [] => True end.
   Proof.
     intros rs vts Ht ND HF. induction HF as [|r [v t] rs vts Ha HF IH]; intros Hex.
     - repeat split; constructor.
     - inversion Hex as [|? ? Hr Hrest]; subst. cbn [fst snd] in Ha.
       destruct (accepted_row sem isinst_plain value_hazard record_fixpoint s m r v t Ht ND Ha Hr)
-        as (_ & Hnm & _ & Hg & Hrn & ->).
-      destruct (IH Hrest) as (I1 & I2 & I3 & I4 & _).
+        as (Hcells & Hnm & Hslots & Hg & Hrn & ->).
+      destruct (IH Hrest) as (I1 & I2 & I3 & I4 & I5 & _).
       unfold rows_of in *. cbn [map fst snd]. repeat split.
       + constructor; assumption.
       + constructor; assumption.
       + now rewrite I3.
       + constructor; [|exact I4]. destruct Ha as (lg & _ & _ & ET). exact ET.
+      + constructor; [split; assumption|exact I5].
       + rewrite Hnm. destruct Hg as (Hn & _ & _). rewrite Hn. now rewrite row_of_names.
   Qed.
 
@@ -321,12 +324,15 @@ Section RoundTrip.
       Forall2 (fun r' v => mcols r' = reread_view s (mcols v) /\ merrs r' = [] /\
                            record_text sem r' = record_text sem v)
               (run_recs (rt_read rt)) (accepted_records w1) /\
+      Forall2 (fun r v => cells_of_rec (mcols r) = cells_of_rec (mcols v) /\
+                          rlist (mcols v) = rlist (canon_rec (cells_of_rec (mcols v))))
+              rs (accepted_records w1) /\
       rt_second rt = Some w2 /\ wr_clean w2 = true /\ wr_entries w2 = wr_entries w1.
   Proof.
     intros Hh Hhl Hsch Hfix Ht Hcar ND Hex w1 Hclean Hord rt.
     destruct (first_write h m sch s rs Hsch Hfix Ht Hclean) as (l & vts & Hp & HF & Hacc & Hent).
     fold w1 in Hacc, Hent.
-    destruct (rows_of_accepted s m rs vts Ht ND HF Hex) as (Hgood & Hren & Htexts & Htext & Hfirst).
+    destruct (rows_of_accepted s m rs vts Ht ND HF Hex) as (Hgood & Hren & Htexts & Htext & Hsame & Hfirst).
     set (rows := rows_of s vts) in *.
     pose proof (printed_lines_block registry hl m0 lg0 l0 h Hh Hhl) as Hblock.
     destruct (printed_lines_parse registry hl m0 lg0 l0 h Hh) as (sch' & Hsch' & Hcore).
@@ -380,8 +386,9 @@ Section RoundTrip.
                 Hsch Hp Hfix2 Ht HF2) as (Hclean2 & _ & Hent2).
     exists rd, (write_file (mk_header m recs verrs) (Some m) (rereads m n0 rows)).
     rewrite Ert. split; [exact Hinit|]. split; [exact Hend|]. split; [now rewrite Hhdr|]. split; [exact Hrsch|].
-    split; [|split; [|split]].
+    split; [|split; [|split; [|split]]].
     - rewrite Hrecs, Hacc. apply reread_matches; assumption.
+    - rewrite Hacc. exact Hsame.
     - subst rt. unfold round_trip_of. cbn [rt_second]. fold w1. unfold rewrite.
       assert (Ert2 : (if translate then read_path sem registry key_of key_lt (wr_text w1) (Some m)
                       else read_text sem registry key_of key_lt (wr_text w1) (Some m))
